@@ -10,14 +10,18 @@ Local Open Scope Z_scope.
 Section Theorems.
 Variable genv : list byte -> option (list byte).
 Variable progname progver : list byte.
+Variable exec_out : list byte -> exec_answer.
+Variable dir_list : list byte -> dir_answer.
 Hypothesis genv_nz : forall n v, genv n = Some v -> val_ok v.
 Hypothesis progname_nz : Forall nz_byte progname.
 Hypothesis progver_nz : val_ok progver.
+Hypothesis exec_ok : forall c o, exec_out c = ExecOut o -> Forall is_byte o /\ small o.
+Hypothesis dir_ok : forall d ns, dir_list d = DirList ns -> Forall (Forall nz_byte) ns.
 
-Notation xloop := (xloop genv progname progver).
-Notation lloop := (lloop genv progname progver).
-Notation shell_expand := (shell_expand genv progname progver).
-Notation shell_expand_reads := (shell_expand_reads genv progname progver).
+Notation xloop := (xloop genv progname progver exec_out dir_list).
+Notation lloop := (lloop genv progname progver exec_out dir_list).
+Notation shell_expand := (shell_expand genv progname progver exec_out dir_list).
+Notation shell_expand_reads := (shell_expand_reads genv progname progver exec_out dir_list).
 
 Lemma fresh_newbuff : repeat None CB = bytes [] ++ repeat (@None byte) CB.
 Proof. reflexivity. Qed.
@@ -29,7 +33,7 @@ Lemma reads_lloop s rest st :
 Proof.
   intros Hs Hcb Hst. unfold ExpandModel.shell_expand_reads. rewrite fresh_newbuff.
   change 0 with (Z.of_nat (@length byte [])).
-  apply xloop_lloop; [assumption|assumption|assumption|lia|assumption|assumption|apply pre_ok_nil|cbn; apply repeat_length|assumption].
+  apply xloop_lloop; [assumption|assumption|assumption|assumption|assumption|lia|assumption|assumption|apply pre_ok_nil|cbn; apply repeat_length|assumption].
 Qed.
 
 (* never reads past the terminator of its input, nor any cell that was not written: for every
@@ -40,7 +44,7 @@ Theorem expand_no_overread s rest st :
   exists r, shell_expand_reads (S (length s)) (cstr s rest) st = Ok r.
 Proof.
   intros Hs Hcb Hst. pose proof (reads_lloop s rest st Hs Hcb Hst) as H.
-  pose proof (lloop_ok genv progname progver genv_nz progname_nz progver_nz (S (length s)) s [] false false st
+  pose proof (lloop_ok genv progname progver genv_nz progname_nz progver_nz exec_out dir_list exec_ok dir_ok (S (length s)) s [] false false st
                        ltac:(lia) Hs pre_ok_nil Hst) as Hok.
   destruct (lloop (S (length s)) s [] false false st) as [pre st'|st'|e|]; cbn [lrel] in H.
   - destruct H as (tl' & -> & _). eauto.
@@ -57,7 +61,7 @@ Theorem expand_cells_written s rest st nb j st' :
   exists pre, Z.of_nat (length pre) = j /\ firstn (Z.to_nat j) nb = bytes pre.
 Proof.
   intros Hs Hcb Hst E. pose proof (reads_lloop s rest st Hs Hcb Hst) as H.
-  pose proof (lloop_ok genv progname progver genv_nz progname_nz progver_nz (S (length s)) s [] false false st
+  pose proof (lloop_ok genv progname progver genv_nz progname_nz progver_nz exec_out dir_list exec_ok dir_ok (S (length s)) s [] false false st
                        ltac:(lia) Hs pre_ok_nil Hst) as Hok.
   destruct (lloop (S (length s)) s [] false false st) as [pre st1|st1|e|]; cbn [lrel] in H.
   - destruct H as (tl' & E' & Hlen). rewrite E in E'. injection E' as -> -> ->.
@@ -84,7 +88,7 @@ Lemma shell_expand_lloop s rest st :
       end).
 Proof.
   intros Hs Hcb Hobj Hst. pose proof (reads_lloop s rest st Hs Hcb Hst) as H.
-  pose proof (lloop_ok genv progname progver genv_nz progname_nz progver_nz (S (length s)) s [] false false st
+  pose proof (lloop_ok genv progname progver genv_nz progname_nz progver_nz exec_out dir_list exec_ok dir_ok (S (length s)) s [] false false st
                        ltac:(lia) Hs pre_ok_nil Hst) as Hok.
   unfold ExpandModel.shell_expand. unfold ExpandModel.shell_expand_reads in H.
   destruct (lloop (S (length s)) s [] false false st) as [pre st'|st'|e|]; cbn [lrel] in H.
@@ -112,7 +116,7 @@ Theorem expand_initialised s rest st :
     end.
 Proof.
   intros Hs Hcb Hobj Hst. rewrite (shell_expand_lloop s rest st Hs Hcb Hobj Hst).
-  pose proof (lloop_ok genv progname progver genv_nz progname_nz progver_nz (S (length s)) s [] false false st
+  pose proof (lloop_ok genv progname progver genv_nz progname_nz progver_nz exec_out dir_list exec_ok dir_ok (S (length s)) s [] false false st
                        ltac:(lia) Hs pre_ok_nil Hst) as Hok.
   destruct (lloop (S (length s)) s [] false false st) as [pre st'|st'|e|].
   - destruct Hok as [Hpre Hst']. eexists _, st'. split; [reflexivity|]. split; [exact Hst'|].
@@ -132,7 +136,7 @@ Qed.
    argument stay below max - 1 characters *)
 Theorem expand_spec_holds s rest st :
   Forall nz_byte s -> (length s < CB)%nat -> (CB <= length (cstr s rest))%nat -> store_ok st ->
-  match expand_spec genv progname progver s st with
+  match expand_spec genv progname progver exec_out dir_list s st with
   | SOut o st' pk =>
     Z.of_nat (length o) < maxj -> Z.of_nat pk < maxj ->
     shell_expand (S (length s)) (cstr s rest) st =
@@ -147,13 +151,13 @@ Theorem expand_spec_holds s rest st :
   end.
 Proof.
   intros Hs Hcb Hobj Hst. unfold expand_spec.
-  pose proof (lloop_sx genv progname progver genv_nz progname_nz progver_nz (S (length s)) s [] false false st
+  pose proof (lloop_sx genv progname progver genv_nz progname_nz progver_nz exec_out dir_list exec_ok dir_ok (S (length s)) s [] false false st
                        ltac:(lia) Hs pre_ok_nil Hst) as H.
-  pose proof (sx_no_fuel genv progname progver (S (length s)) s false false st ltac:(lia)) as Hnf.
-  pose proof (lloop_ok genv progname progver genv_nz progname_nz progver_nz (S (length s)) s [] false false st
+  pose proof (sx_no_fuel genv progname progver exec_out dir_list (S (length s)) s false false st ltac:(lia)) as Hnf.
+  pose proof (lloop_ok genv progname progver genv_nz progname_nz progver_nz exec_out dir_list exec_ok dir_ok (S (length s)) s [] false false st
                        ltac:(lia) Hs pre_ok_nil Hst) as Hok.
   rewrite (shell_expand_lloop s rest st Hs Hcb Hobj Hst).
-  destruct (sx genv progname progver (S (length s)) s false false st) as [o st' pk|[|e] st' m pk|];
+  destruct (sx genv progname progver exec_out dir_list (S (length s)) s false false st) as [o st' pk|[|e] st' m pk|];
     cbn [sx_rel app length Nat.add] in H; [| | |congruence].
   - intros H1 H2. rewrite (H H1 H2) in *. cbn [llres_ok] in Hok. destruct Hok as [(A & B & C) _].
     assert (Ef : lfinish o = Some o).
@@ -165,3 +169,47 @@ Proof.
 Qed.
 
 End Theorems.
+
+(* ---------- %dirscan on its own: no hypotheses about anything but the names ---------- *)
+Theorem dirscan_in_bounds : forall names, Forall (Forall nz_byte) names ->
+  exists rest', dirscan_loop names (Some 0 :: repeat None (CB - 1)) config_buff =
+                  Ok (cstr (dir_join names [] config_buff) rest') /\
+                length (cstr (dir_join names [] config_buff) rest') = CB /\
+                Forall nz_byte (dir_join names [] config_buff) /\
+                Z.of_nat (length (dir_join names [] config_buff)) < config_buff.
+Proof.
+  intros names Hn. pose proof cb_bounds as Hcb. pose proof CB_eq as HCB.
+  change (Some 0 :: repeat None (CB - 1)) with (cstr [] (repeat (@None byte) (CB - 1))).
+  destruct (dirscan_loop_exact names Hn [] (repeat None (CB - 1)) config_buff
+              ltac:(constructor) ltac:(simpl; lia) ltac:(lia)) as (rest' & E & L).
+  { rewrite cstr_length, repeat_length. simpl. lia. }
+  exists rest'. split; [exact E|]. split; [exact L|].
+  destruct (dir_join_inv names Hn [] config_buff ltac:(constructor) ltac:(simpl; lia) ltac:(lia)) as (n' & A & B & C).
+  split; [exact A|lia].
+Qed.
+
+Theorem dirscan_lists_names : forall names,
+  (exists sel, subseq sel names /\ dir_join names [] config_buff = blanked sel) /\
+  (Z.of_nat (length (blanked names)) < config_buff -> dir_join names [] config_buff = blanked names).
+Proof.
+  intros names. split.
+  - destruct (dir_join_subseq names [] config_buff) as (sel & Hs & E). exists sel. split; [exact Hs|exact E].
+  - intros H. now rewrite dir_join_all.
+Qed.
+
+(* the worlds the correspondence check builds meet the hypotheses of the theorems *)
+Lemma exec_world_ok tmp_ok outfile_len out :
+  (forall o, out = Some o -> Forall is_byte o /\ small o) ->
+  forall c o, exec_world tmp_ok outfile_len out c = ExecOut o -> Forall is_byte o /\ small o.
+Proof.
+  intros H c o. unfold exec_world. destruct out as [content|]; [|discriminate].
+  destruct (negb tmp_ok); [discriminate|]. destruct (_ <? _); [discriminate|].
+  intros E. injection E as <-. now apply H.
+Qed.
+Lemma dir_world_ok dirs : Forall (fun e => Forall (Forall nz_byte) (snd e)) dirs ->
+  forall d ns, dir_world dirs d = DirList ns -> Forall (Forall nz_byte) ns.
+Proof.
+  induction dirs as [|[k names] t IH]; intros H d ns; cbn [dir_world]; [discriminate|].
+  inversion H as [|? ? Hk Ht]; subst. cbn [snd] in Hk.
+  destruct (strcmp k d); try (now apply IH). intros E. injection E as <-. exact Hk.
+Qed.
